@@ -234,6 +234,10 @@ def _opts(parts):
 
 def wheel_deser(f, blob):
     parts = f.split(":")
+    if parts[0] == "api":
+        from clvm_rs import serde as _serde
+        kw = _opts(parts[1:])
+        return _serde.deserialize(blob, parts[1], **kw)
     if parts[0] == "legacy":
         return ext.deser_legacy(blob)
     if parts[0] == "backrefs":
@@ -247,6 +251,11 @@ def wheel_deser(f, blob):
 
 def wheel_ser(node, f):
     parts = f.split(":")
+    if parts[0] == "api":
+        from clvm_rs import serde as _serde
+        if parts[1] == "2026" and len(parts) > 2:
+            return _serde.serialize(node, "2026", level=int(parts[2]))
+        return _serde.serialize(node, parts[1])
     if parts[0] == "legacy":
         return ext.ser_legacy(node)
     if parts[0] == "backrefs":
